@@ -39,7 +39,7 @@ def modify(ctx, path, md5, no_reverify, size):
         raise click.ClickException("negative file size.")
 
     # Check MD5
-    validate_md5(md5)
+    md5 = validate_md5(md5)
 
     with database_proxy.atomic():
         file_ = file_from_path(path)
